@@ -1820,5 +1820,83 @@ theorem valsAt_tagWith (d : ν) (pairs : Fib κ ν) (c : κ) :
 
 end leafmerge
 
+/-! ### composing two descents; the tensor-level guard -/
+
+section compose
+variable {κ : Type} [LT κ] [DecidableRel (α := κ) (· < ·)] [DecidableEq κ] [StrictTotal κ]
+variable {ν : Type} [DecidableEq ν]
+
+theorem mapM?_keyed_bind {α β γ : Type} (F1 : α → Option β) (F2 : β → Option γ) (F12 : α → Option γ) :
+    ∀ (l : List (κ × α)) (bs : List (κ × β)),
+      mapM? (fun e => (F1 e.2).map (fun t => (e.1, t))) l = some bs →
+      (∀ e ∈ l, ∀ v, F1 e.2 = some v → F2 v = F12 e.2) →
+      mapM? (fun e => (F2 e.2).map (fun t => (e.1, t))) bs =
+        mapM? (fun e => (F12 e.2).map (fun t => (e.1, t))) l
+  | [], bs, h, _ => by
+    simp [mapM?] at h; subst h; rfl
+  | e :: r, bs, h, hf => by
+    simp only [mapM?] at h
+    cases hg : F1 e.2 with
+    | none => simp [hg] at h
+    | some v =>
+      simp only [hg, Option.map_some] at h
+      cases hr : mapM? (fun e => (F1 e.2).map (fun t => (e.1, t))) r with
+      | none => simp [hr] at h
+      | some bs' =>
+        simp only [hr, Option.map_some, Option.some.injEq] at h
+        subst h
+        have ih := mapM?_keyed_bind F1 F2 F12 r bs' hr (fun e' he' => hf e' (List.mem_cons_of_mem _ he'))
+        have h2 := hf e (List.mem_cons_self ..) v hg
+        simp only [mapM?, h2, ih]
+
+/-- two descents to the same depth are one descent with the composed transform -/
+theorem atDepth_bind {a b c : Nat} (g1 : Tree κ ν a → Option (Tree κ ν b)) (g2 : Tree κ ν b → Option (Tree κ ν c)) :
+    ∀ (k : Nat) (t : Tree κ ν (a + k)) (u : Tree κ ν (b + k)), atDepth g1 k t = some u →
+      atDepth g2 k u = atDepth (fun s => (g1 s).bind g2) k t
+  | 0, t, u, h => by
+    show g2 u = (g1 t).bind g2
+    have h' : g1 t = some u := h
+    rw [h']; rfl
+  | k + 1, f, u, h => by
+    unfold atDepth at h
+    cases hm : mapM? (fun e => (atDepth g1 k e.2).map (fun t => (e.1, t)))
+        (show List (κ × Tree κ ν (a + k)) from f) with
+    | none => rw [hm] at h; cases h
+    | some bs =>
+      rw [hm] at h
+      have hu : (show List (κ × Tree κ ν (b + k)) from bs) = u := Option.some.inj h
+      subst hu
+      have := mapM?_keyed_bind (atDepth g1 k) (atDepth g2 k) (atDepth (fun s => (g1 s).bind g2) k)
+        (show List (κ × Tree κ ν (a + k)) from f) bs hm
+        (fun e _ v hv => atDepth_bind g1 g2 k e.2 v hv)
+      unfold atDepth
+      exact congrArg (Option.map _) this
+
+theorem all_flatMap' {α β : Type} (p : β → Bool) (F : α → List β) : ∀ l : List α,
+    (l.flatMap F).all p = l.all (fun a => (F a).all p)
+  | [] => rfl
+  | a :: l => by rw [List.flatMap_cons, List.all_append, List.all_cons, all_flatMap' p F l]
+
+/-- the tensor-level guard `all(fiber.isEmpty() for fiber in ranks[k].fibers)` is emptiness of the tensor -/
+theorem allEmptyAt_eq_isEmpty (dflt : ν) (a : Nat) : ∀ (k : Nat) (t : Tree κ ν (a + 1 + k)),
+    allEmptyAt dflt a k t = isEmpty dflt (a + 1 + k) t
+  | 0, t => by simp [allEmptyAt, fibersAt]
+  | k + 1, f => by
+    unfold allEmptyAt fibersAt
+    rw [all_flatMap']
+    show _ = (show List (κ × Tree κ ν (a + 1 + k)) from f).all (fun e => isEmpty dflt (a + 1 + k) e.2)
+    congr 1
+    funext e
+    exact allEmptyAt_eq_isEmpty dflt a k e.2
+
+theorem liftN_id : ∀ (k : Nat) (p : List κ), liftN (fun q => q) k p = p
+  | 0, _ => rfl
+  | k + 1, [] => rfl
+  | k + 1, c :: p => by
+    show c :: liftN (fun q => q) k p = c :: p
+    rw [liftN_id k p]
+
+end compose
+
 end C09
 end Ft
